@@ -232,7 +232,7 @@ def scenario_trace(tid, scn, ev, raw_vals, check, mode=None):
         if k == 'submit':
             out.append({'k': 'submit', 'oid': e[1], 'typ': e[2], 'p': rk[e[3]], 'q8': int(abs(e[4]) * 8),
                         'qh': float(abs(e[4])).hex(), 't': e[5],
-                        'side': e[6], 'cur': 0, 'ro': False, 'pu': 0})
+                        'side': e[6], 'cur': 0, 'ro': False, 'pu': 0, 'cu': 0})
         elif k == 'exec':
             out.append({'k': 'exec', 'oid': e[1], 'pre': e[2], 'post': e[3], 'p': rk[e[4]], 'q8': int(abs(e[5]) * 8),
                         'qh': float(abs(e[5])).hex(), 't': e[6], 'dq8': int(e[7] * 8), 'sq8': int(e[5] * 8)})
@@ -278,7 +278,7 @@ def q8_or(x, default=-1):
     return int(y) if y == int(y) and abs(y) < 1e8 else default
 
 
-def vivo_trace(tid, rec_events, raw, cfg, mode, check, unit=1e-3):
+def vivo_trace(tid, rec_events, raw, cfg, mode, check, unit=1e-3, completed=True):
     """raw: the 1m candle array given to research.backtest (n x 6, before jesse mutates its copy).
     Prices -> dense ranks over the run; C09 amounts -> multiples of `unit`."""
     vals = set()
@@ -318,7 +318,8 @@ def vivo_trace(tid, rec_events, raw, cfg, mode, check, unit=1e-3):
             cur = e.get('cur')
             out.append({'k': 'submit', 'oid': e['oid'], 'typ': e['type'], 'p': rk[float(e['price'])],
                         'q8': q8_or(abs(e['qty'])), 'qh': float(abs(e['qty'])).hex(), 't': int(e['t']), 'side': e['side'],
-                        'cur': rk[float(cur)] if cur is not None else 0, 'ro': bool(e['ro']), 'pu': U(e['price'])})
+                        'cur': rk[float(cur)] if cur is not None else 0, 'ro': bool(e['ro']), 'pu': U(e['price']),
+                        'cu': U(cur) if cur is not None else 0})
         elif k == 'exec_begin':
             # placed where execute() begins (submissions made by the hooks inside come after it); the status
             # after the call is filled in from the matching exec_end
@@ -354,7 +355,8 @@ def vivo_trace(tid, rec_events, raw, cfg, mode, check, unit=1e-3):
             wal = e.get('acct', {}).get('wallet')
             out.append({'k': 'liqcheck_end', 'q8': q8_or(e['qty'], 0 if e['qty'] == 0 else 77777777), 'count': int(e['count']),
                         'wal': U(wal) if wal is not None else 0})
-    out.append({'k': 'end'})
+    if completed and n_ok == len(rec_events):      # a run that ended in a jesse exception never flushed its last orders
+        out.append({'k': 'end'})
     hdr = {'mode': mode, 'check': list(check), 'raw': [[rk[float(x)] for x in (r[1], r[2], r[3], r[4])] for r in raw],
            'lev': int(cfg.get('futures_leverage', 1)), 'fee': fee,
            'levmode': 'spot' if cfg.get('type') == 'spot' else cfg.get('futures_leverage_mode', 'cross')}
@@ -408,11 +410,12 @@ def run_vivo(item):
         signal.alarm(0)
         rec.uninstall()
     mode = 'fast' if item['fast'] else 'step'
+    done = out.get('exc') is None
     if len(syms) == 1:
-        trs = [vivo_trace(item['id'], rec.ev, raws[syms[0]], cfg, mode, item['check'])]
+        trs = [vivo_trace(item['id'], rec.ev, raws[syms[0]], cfg, mode, item['check'], completed=done)]
     else:
-        trs = [vivo_trace(item['id'] * 4 + k, [e for e in rec.ev if e.get('sym') == sym], raws[sym], cfg, mode, item['check'])
-               for k, sym in enumerate(syms)]
+        trs = [vivo_trace(item['id'] * 4 + k, [e for e in rec.ev if e.get('sym') == sym], raws[sym], cfg, mode, item['check'],
+                          completed=done) for k, sym in enumerate(syms)]
     evs = [e for t in trs for e in t['ev']]
     kinds = [e['k'] for e in evs]
     fills = sum(1 for e in evs if e['k'] == 'exec' and e['pre'] == 'ACTIVE' and e['post'] == 'EXECUTED')
@@ -557,7 +560,8 @@ def run_liq_case(item):
         cls = make_liq_strategy(p)
     series = liq_series(p, liq_approach(item['pattern'], p['P0'], liq, p['side']))
     rec2, out2 = one(series)
-    tr = vivo_trace(item['id'], rec2.ev, series, cfg, 'fast' if item['fast'] else 'step', ['liq'])
+    tr = vivo_trace(item['id'], rec2.ev, series, cfg, 'fast' if item['fast'] else 'step', ['liq'],
+                    completed=out2.get('exc') is None)
     checks = [e for e in rec2.ev if e['k'] == 'liqcheck']
     near = sum(1 for e in checks if e['qty'] != 0)
     stats = {'liq': (out2.get('final') or {}).get('liquidations', 0), 'exc': out2.get('exc'), 'open_checks': near,
